@@ -11,6 +11,10 @@ From SK Require Import Lib.Base Model.Pelt Proofs.PeltSpec Proofs.PeltRefine Che
 Open Scope Z_scope.
 
 From SK Require Import Proofs.ValidCuts.
+From Coq Require Import Reals.
+From SK Require Import Gen.KernelsR Proofs.RealLib Proofs.CostKernels Model.PeltR Proofs.PeltReal Model.Generic Proofs.GenericZ Proofs.GenericR.
+Close Scope R_scope.
+Open Scope Z_scope.
 Definition pelt_code (C : nat -> nat -> Z) (pen : Z) (m n : nat) := pelt C pen m (m - 1) n.
 Definition split_ineq (C : nat -> nat -> Z) (m : nat) : Prop :=
   forall s k e, (s + m <= k)%nat -> (k + m <= e)%nat -> C s k + C k e <= C s e.
@@ -76,3 +80,55 @@ Theorem C02_only_valid_cuts_matter : forall (C1 C2 : nat -> nat -> Z) (pen : Z) 
 Proof. exact @pelt_ext_valid. Qed.
 
 Print Assumptions C02_only_valid_cuts_matter.
+
+(* the statements below are over the real numbers *)
+Open Scope R_scope.
+(** ---- added: statements re-derived from the lemma files by tools/append_props.py ---- *)
+Theorem C02_generic_loop_at_Z_is_the_model : forall (C : nat -> nat -> T Zn) (pen : T Zn) (m d n : nat), gpelt Zn C pen m d n = pelt C pen m d n.
+Proof. exact @gpelt_Z. Qed.
+
+Theorem C02_generic_loop_at_R_is_the_real_model : forall (C : nat -> nat -> T Rn) (pen : T Rn) (m d n : nat), gpelt Rn C pen m d n = peltR C pen m d n.
+Proof. exact @gpelt_R. Qed.
+
+Theorem C02_real_model_extends_integer_model : forall (C : nat -> nat -> Z) (pen : Z) (m d n : nat), peltR (fun s e : nat => IZR (C s e)) (IZR pen) m d n = (map IZR (fst (pelt C pen m d n)), snd (pelt C pen m d n)).
+Proof. exact @peltR_of_Z. Qed.
+
+Theorem C02_real_costs_changepoints_admissible : forall (C : nat -> nat -> R) (pen : R) (m delay n : nat), (1 <= m)%nat -> (2 * m <= n)%nat -> Adm m (snd (peltR C pen m delay n)) n.
+Proof. exact @peltR_adm. Qed.
+
+Theorem C02_real_costs_final_score_is_cost_of_output : forall (C : nat -> nat -> R) (pen : R) (m delay n : nat), (1 <= m)%nat -> (2 * m <= n)%nat -> nth (n - 1) (fst (peltR C pen m delay n)) 0 = pencostR C pen (snd (peltR C pen m delay n)) n.
+Proof. exact @peltR_final_is_pencost. Qed.
+
+Theorem C02_real_costs_prefix_scores_optimal : forall (C : nat -> nat -> R) (pen : R) (m delay n : nat), (1 <= m)%nat -> (2 * m <= n)%nat -> 0 <= pen -> (m <= delay + 1)%nat -> (forall s k e : nat, (s + m <= k)%nat -> (k + m <= e)%nat -> (e <= n)%nat -> C s k + C k e <= C s e) -> forall t : nat, (m <= t <= n)%nat -> nth (t - 1) (fst (peltR C pen m delay n)) 0 = FR C pen m t.
+Proof. exact @peltR_scores_optimal_bounded. Qed.
+
+Theorem C02_real_costs_output_is_minimiser : forall (C : nat -> nat -> R) (pen : R) (m delay n : nat), (1 <= m)%nat -> (2 * m <= n)%nat -> 0 <= pen -> (m <= delay + 1)%nat -> (forall s k e : nat, (s + m <= k)%nat -> (k + m <= e)%nat -> (e <= n)%nat -> C s k + C k e <= C s e) -> forall c : list nat, Adm m c n -> pencostR C pen (snd (peltR C pen m delay n)) n <= pencostR C pen c n.
+Proof. exact @peltR_optimal_bounded. Qed.
+
+Theorem C02_builtin_l2_cost_end_to_end : forall (xs : list R) (pen : R) (m : nat), (1 <= m)%nat -> (2 * m <= length xs)%nat -> 0 <= pen -> let n := length xs in let cpts := snd (peltR (l2_cost_optim_R (prefix xs) (prefix (sq xs))) pen m (m - 1) n) in Adm m cpts n /\ (forall c : list nat, Adm m c n -> pencostR (fun s e : nat => rss (slice s e xs)) pen cpts n <= pencostR (fun s e : nat => rss (slice s e xs)) pen c n).
+Proof. exact @pelt_l2_end_to_end_rss. Qed.
+
+Theorem C02_builtin_l2_cost_final_score : forall (xs : list R) (pen : R) (m : nat), (1 <= m)%nat -> (2 * m <= length xs)%nat -> 0 <= pen -> let n := length xs in let out := peltR (l2_cost_optim_R (prefix xs) (prefix (sq xs))) pen m (m - 1) n in nth (n - 1) (fst out) 0 = pencostR (fun s e : nat => rss (slice s e xs)) pen (snd out) n.
+Proof. exact @pelt_l2_final_score_rss. Qed.
+
+Theorem C02_builtin_l2_cost_multicolumn_end_to_end : forall (xss : list (list R)) (pen : R) (m n : nat), (1 <= m)%nat -> (2 * m <= n)%nat -> 0 <= pen -> (forall xs : list R, In xs xss -> length xs = n) -> let cpts := snd (peltR (l2_multi xss) pen m (m - 1) n) in Adm m cpts n /\ (forall c : list nat, Adm m c n -> pencostR (rss_multi xss) pen cpts n <= pencostR (rss_multi xss) pen c n).
+Proof. exact @pelt_l2_multicolumn_end_to_end_rss. Qed.
+
+Theorem C02_builtin_gaussian_cost_end_to_end : forall (xs : list R) (pen : R) (m : nat), (1 <= m)%nat -> (2 * m <= length xs)%nat -> 0 <= pen -> var_above_floor xs m -> let n := length xs in let cpts := snd (peltR (gaussian_var_cost_optim_R (prefix xs) (prefix (sq xs))) pen m (m - 1) n) in let nll := fun s e : nat => nll2 (meanR (slice s e xs)) (varR (slice s e xs)) (slice s e xs) in Adm m cpts n /\ (forall c : list nat, Adm m c n -> pencostR nll pen cpts n <= pencostR nll pen c n).
+Proof. exact @pelt_gvar_end_to_end_nll. Qed.
+
+Theorem C02_generic_loop_l2_optimal : forall (xs : list R) (pen : R) (m : nat), (1 <= m)%nat -> (2 * m <= length xs)%nat -> 0 <= pen -> let n := length xs in let P1 := prefix xs in let P2 := prefix (sq xs) in let cpts := snd (gpelt Rn (l2_cost_optim_R P1 P2) pen m (m - 1) n) in Adm m cpts n /\ (forall c : list nat, Adm m c n -> pencostR (l2_cost_optim_R P1 P2) pen cpts n <= pencostR (l2_cost_optim_R P1 P2) pen c n).
+Proof. exact @generic_pelt_l2_optimal. Qed.
+
+Print Assumptions C02_generic_loop_at_Z_is_the_model.
+Print Assumptions C02_generic_loop_at_R_is_the_real_model.
+Print Assumptions C02_real_model_extends_integer_model.
+Print Assumptions C02_real_costs_changepoints_admissible.
+Print Assumptions C02_real_costs_final_score_is_cost_of_output.
+Print Assumptions C02_real_costs_prefix_scores_optimal.
+Print Assumptions C02_real_costs_output_is_minimiser.
+Print Assumptions C02_builtin_l2_cost_end_to_end.
+Print Assumptions C02_builtin_l2_cost_final_score.
+Print Assumptions C02_builtin_l2_cost_multicolumn_end_to_end.
+Print Assumptions C02_builtin_gaussian_cost_end_to_end.
+Print Assumptions C02_generic_loop_l2_optimal.
